@@ -15,6 +15,30 @@ Theorem C19_fields_inside : forall packed align fs,
   Forall2 (fun f o => o + f_size f <= lc_size (layout_C packed align fs)) fs (lc_offsets (layout_C packed align fs)).
 Proof. exact layout_fields_inside. Qed.
 
+Theorem C19_result_is_the_address_difference : forall base a size r,
+  offset_of_run base a size = Ret r -> a = base + r /\ r <= size.
+Proof. exact offset_of_run_sound. Qed.
+
+Theorem C19_outside_never_yields_a_number : forall base a size,
+  a < base \/ base + size < a -> forall r, offset_of_run base a size <> Ret r.
+Proof. exact offset_of_run_outside. Qed.
+
+Theorem C19_offsets_aligned : forall packed align fs,
+  Forall2 (fun f o => cap packed (f_align f) <> 0 -> o mod cap packed (f_align f) = 0) fs (lc_offsets (layout_C packed align fs)).
+Proof. exact layout_offsets_aligned. Qed.
+
+Theorem C19_offsets_in_declaration_order_disjoint : forall packed align fs,
+  chain 0 fs (lc_offsets (layout_C packed align fs)).
+Proof. exact layout_offsets_ordered. Qed.
+
+Theorem C19_first_field_at_zero : forall packed align f fs,
+  hd_error (lc_offsets (layout_C packed align (f :: fs))) = Some 0.
+Proof. exact layout_first_field_at_zero. Qed.
+
+Theorem C19_size_multiple_of_align : forall packed align fs,
+  lc_size (layout_C packed align fs) mod lc_align (layout_C packed align fs) = 0.
+Proof. exact layout_size_multiple_of_align. Qed.
+
 Example C19_nonvacuous :
   lc_offsets (layout_C 0 0 [mkFld 1 1; mkFld 4 4; mkFld 2 2]) = [0; 4; 8] /\
   lc_size (layout_C 0 0 [mkFld 1 1; mkFld 4 4; mkFld 2 2]) = 12 /\
@@ -24,3 +48,9 @@ Proof. repeat split; reflexivity. Qed.
 
 Print Assumptions C19_direct_field.
 Print Assumptions C19_fields_inside.
+Print Assumptions C19_result_is_the_address_difference.
+Print Assumptions C19_outside_never_yields_a_number.
+Print Assumptions C19_offsets_aligned.
+Print Assumptions C19_offsets_in_declaration_order_disjoint.
+Print Assumptions C19_first_field_at_zero.
+Print Assumptions C19_size_multiple_of_align.
